@@ -7,6 +7,7 @@ import (
 	"sort"
 	"strings"
 	"sync"
+	"sync/atomic"
 	"time"
 
 	mapset "github.com/deckarep/golang-set/v2"
@@ -287,6 +288,8 @@ func runC06(e *sim.Env) {
 	serverClosed := false
 	applied := false // was at least one cause actually carried out (a server-side Disconnect needs the socket to exist)
 	appliedSrvDisc := false
+	discWhilePending := false
+	var srvDiscStalled atomic.Int64
 	for _, cause := range causes {
 		cause := cause
 		dir := []string{"", "c2s", "s2c"}[p.C("dir")]
@@ -295,6 +298,12 @@ func runC06(e *sim.Env) {
 		case "cli_disconnect":
 			if victim != nil {
 				applied = true
+				// (a Disconnect made before the CONNECT reply is in: the client's DISCONNECT packet can
+				// overtake its own CONNECT packet, which is sent from a goroutine; the server answers a
+				// DISCONNECT for a namespace it has no socket in by closing the connection: "forced close")
+				if !victim.Socket.Connected() {
+					discWhilePending = true
+				}
 				e.Go(func() { id, _ := e.Invoke(0, "victim.Disconnect"); victim.Socket.Disconnect(); e.Return(0, id, "") })
 			}
 		case "mgr_close":
@@ -305,7 +314,13 @@ func runC06(e *sim.Env) {
 		case "srv_disc_false", "srv_disc_true":
 			if s := victimSrv(); s != nil {
 				applied, appliedSrvDisc = true, true
-				e.Go(func() { id, _ := e.Invoke(0, cause); s.Disconnect(cause == "srv_disc_true"); e.Return(0, id, "") })
+				e.Go(func() {
+					id, _ := e.Invoke(0, cause)
+					from := e.Now()
+					s.Disconnect(cause == "srv_disc_true")
+					srvDiscStalled.Add(e.StallsOverlapping(from, e.Now()))
+					e.Return(0, id, "")
+				})
 			}
 		case "disc_sockets_false", "disc_sockets_true":
 			if s := victimSrv(); s != nil {
@@ -316,7 +331,9 @@ func runC06(e *sim.Env) {
 				applied, appliedSrvDisc = true, true
 				e.Go(func() {
 					id, _ := e.Invoke(0, cause)
+					from := e.Now()
 					srv.Of("/").In(room).DisconnectSockets(cause == "disc_sockets_true")
+					srvDiscStalled.Add(e.StallsOverlapping(from, e.Now()))
 					e.Return(0, id, "")
 				})
 			}
@@ -359,6 +376,15 @@ func runC06(e *sim.Env) {
 		for _, r := range c06CliAllowed[c] {
 			allowedCli[r] = true
 		}
+	}
+	if discWhilePending {
+		allowedSrv["forced close"] = true
+	}
+	if srvDiscStalled.Load() > 0 {
+		// Disconnect sends the DISCONNECT packet and closes the socket afterwards. When the calling
+		// goroutine is held up in between for longer than a round trip, the client's reaction (it
+		// closes the transport) reaches the socket first.
+		allowedSrv["transport close"], allowedSrv["transport error"] = true, true
 	}
 	// A cut of ONE polling connection (the fixed sweep) need not end the session: net/http dials again.
 	// Then nothing may be reported on either side and the victim must still work; if either side did
@@ -478,6 +504,10 @@ func runC06(e *sim.Env) {
 		case nDisc == 0 && !applied:
 			e.Probe("cause-not-applicable")
 			continue
+		case nDisc == 0 && s.ClosedEarly:
+			// closed before the application had attached its disconnect handler (the connection handler
+			// runs on its own goroutine): there was nothing to call
+			e.Probe("closed-before-handlers-attached")
 		case nDisc == 0:
 			e.Violate("C06/server-end-not-reported", sig, "server socket %s: connection handler ran at t=%d, the connection ended (%v), disconnect handler never ran (40 s later)", id, s.ConnAt, causes)
 		case nDisc > 1:
